@@ -4,11 +4,14 @@
 def setup(register, COMMON_TB):
     register(
         "C16", coq="C16", coq_extra=["k8s", "ngx", "C02"], pkg="./internal/mode/static/", test="TestVerifC16",
+        extra=[dict(pkg="./internal/mode/static/state/graph/", test="TestVerifC16Match")],
         rule="TLS-heavy generated cluster states (HTTPS listeners on shared ports with distinct Secrets per (namespace, name), missing / malformed / "
              "cross-namespace Secrets, BackendTLSPolicies with ConfigMap or system CA, competing policies per Service, rules with several backends) run "
              "through the real pipeline; per generated request the selected server's certificate file and its bytes (hash) are compared with the Secret of "
              "the owning listener per k8s/Spec.v, trusted-CA files with the ConfigMap, and the proxied outcome including upstream TLS verification "
-             "with the specification; non-trivial = at least one HTTPS listener and http.conf over 2 kB",
+             "with the specification; non-trivial = at least one HTTPS listener and http.conf over 2 kB. Second part (TestVerifC16Match, evaluated by C16/PolMatchCheck.v): the real "
+             "validateBackendTLSPolicyMatchingAllBackends on lists of 1-5 backends without a policy or with one of three policies that differ from each other in at most one of "
+             "namespace / CA references / well-known setting / hostname: verdict = the model's, and a rule that is not rejected has backends that all mean the same verification",
         trusted_base=COMMON_TB + [
             "ngx/Lexer.v + ngx/Eval.v (server selection by SNI) written from the NGINX documentation",
             "k8s/Spec.v expected_secret / btp_for / rule_tls_consistent as specification",
